@@ -245,6 +245,10 @@ def oracle(ctx, deep):
                                                           'retransmit_request', 'delete_child', 'dpd', 'cookie_handshake',
                                                           'simultaneous_rekey_child')
                 or r[0].startswith('walk')][:22]
+    # histories with an authenticated peer that misbehaves (wrong exchange type in a response, error notifications,
+    # requests on a rekeyed IKE_SA ...): the window clauses are local to an endpoint and hold at both
+    from props import hdl
+    runs += [(label, conf, acts) for label, acts, conf, seed, skip in hdl.deviant_set(deep, ctx.seed)]
     return run_oracle(ctx, runs)
 
 
